@@ -196,6 +196,8 @@ def coqchk(modules):
 
 # ---------------------------------------------------------------- verdict bookkeeping
 class Ctx:
+    def shrink_expired(self):
+        return self.shrink_deadline is not None and time.time() > self.shrink_deadline
     def __init__(self, prop, tier, seed, replay=None):
         self.prop, self.tier, self.seed, self.replay = prop, tier, seed, replay
         self.rng = random.Random((seed << 8) ^ int(hashlib.sha256(prop.encode()).hexdigest()[:8], 16))
@@ -208,6 +210,7 @@ class Ctx:
         self.tie_breaks = []        # (case, detail): model and implementation disagree, spec not violated
         self.traces_validated = 0
         self.notes = []
+        self.shrink_deadline = None     # shrinking is best effort: a replay file need not be minimal, but the check must end
         self.scratch = tempfile.mkdtemp(prefix="verif-%s-" % prop)
         self._model = None; self._harness = None
     # lazily started helpers
